@@ -169,4 +169,46 @@ class TimeSuite(cc.ChanSuite):
         return None
 
 
-SUITES = [TimeSuite()]
+class FloodSuite(cc.ChanSuite):
+    """A source that floods (data is always already pending) while every look at the clock costs `tick`:
+    the operation must still end within T (+ the few clock reads of one loop iteration).  The Coq model has no
+    tick, so this suite is judged by the oracle only."""
+    name = "flood"
+    model_fn = None
+
+    def gen(self, tier, rng):
+        for i in range(600 if tier == "thorough" else 120):
+            tick = rng.choice([1, 2, 5, 8])
+            T = rng.choice([40, 100, 200])
+            npieces = rng.randint(150, 400)
+            pieces = [[0, cc.rand_bytes(rng, rng.randint(1, 3), b"ab\n ").hex()] for _ in range(npieces)]
+            kind = rng.choice(["read", "read_iter", "readline", "expect", "rup", "rut"])
+            op = {"read": ["read", 4000, T], "read_iter": ["read_iter", None, T], "readline": ["readline", T, "7e7e"],
+                  "expect": ["expect", [{"lit": "7e7e"}], T], "rup": ["rup", {"lit": "7e7e"}, T], "rut": ["rut", T]}[kind]
+            yield {"pieces": pieces, "accept": [], "ops": [op], "tick": tick}
+
+    def oracle(self, case, obs):
+        fails = []
+        tick = case["tick"]
+        o, ob = case["ops"][0], obs[0][0]
+        r, now = ob[0], ob[1]
+        if r[0] == 8:
+            r = r[2]
+        T = o[1] if o[0] in ("readline", "rut") else o[2]
+        if now > T + 4 * tick:
+            fails.append(f"{o[0]} with timeout {T} went on until {now} while data kept arriving (clock tick {tick}); "
+                         f"it must end by T plus the clock reads of one iteration ({T + 4 * tick})")
+        if r == [2] and now < T:
+            fails.append(f"{o[0]} raised TimeoutError at {now}, before T={T}")
+        if o[0] == "rut" and r[0] != 1:
+            fails.append(f"read_until_timeout raised {r!r}")
+        return fails
+
+    def nontrivial(self, case, obs):
+        return True
+
+    def klass(self, case, obs):
+        return case["ops"][0][0]
+
+
+SUITES = [TimeSuite(), FloodSuite()]
